@@ -134,6 +134,10 @@ var c13jsonAtoms = []string{"{", "}", `"`, `\`, `\\`, "[", "]", ":", ",", "a", "
 func c13jsonStr(r *rand.Rand) string {
 	var b strings.Builder
 	for i, n := 0, r.Intn(5); i < n; i++ {
+		if r.Intn(16) == 0 {
+			b.WriteString(autoString(r, "a")) // a literal of the tree under test
+			continue
+		}
 		b.WriteString(c13jsonAtoms[r.Intn(len(c13jsonAtoms))])
 	}
 	if r.Intn(6) == 0 {
@@ -594,10 +598,14 @@ func (c13) Case(c *core.Ctx) {
 	// long stalls: a run of 90..400 consecutive (0,nil) reads at one position (legal; bufio itself gives up after 100,
 	// so bufio sources are left out)
 	if api.byteSrc != "bufio" {
-		for i := 0; i < 3; i++ {
-			p := []int{0, len(stream) - 1, r.Intn(len(stream))}[i]
+		for i := 0; i < 4; i++ {
+			p := []int{0, len(stream) - 1, r.Intn(len(stream)), r.Intn(len(stream))}[i]
+			n := 90 + r.Intn(311)
+			if i == 3 {
+				n = autoInt(r, 8, 5000, 256) // a limit the tree itself spells out (+-1)
+			}
 			c.Count("schedule:long-stall")
-			c13run(c, api, stream, ds, wantFp, c13sched{zeroAt: map[int]int{p: 90 + r.Intn(311)}, eofWith: r.Intn(2) == 0, stopAt: stopAt}, c.Verbose)
+			c13run(c, api, stream, ds, wantFp, c13sched{zeroAt: map[int]int{p: n}, eofWith: r.Intn(2) == 0, stopAt: stopAt}, c.Verbose)
 		}
 	}
 	if len(ds) >= 2 && (c.Index/len(c13apiList))%2 == 0 {
